@@ -384,6 +384,24 @@ fn do_pos(fields: &[&str], z: &ZobristHasher, out: &mut dyn Write) {
     }
 }
 
+fn do_roots(fields: &[&str], z: &ZobristHasher, out: &mut dyn Write) {
+    // roots <position command>: the moves the search can choose from after this position command
+    let cmds: Vec<&str> = fields[1].split(' ').collect();
+    let r = catch_unwind(AssertUnwindSafe(|| {
+        let mut t = DrawTable::new();
+        let b = uci::verif_play_out_position(&cmds, z, &mut t);
+        let mut ms: Vec<String> = generate_moves(&b, MoveGenerationMode::AllMoves, z)
+            .iter()
+            .map(uci_text)
+            .collect();
+        ms.sort();
+        format!("roots {}", ms.join(","))
+    }));
+    let i = r.unwrap_or_else(|_| "roots PANIC".to_string());
+    writeln!(out, "I {}", i).unwrap();
+    writeln!(out, "P {}", i).unwrap();
+}
+
 fn do_zdump(z: &ZobristHasher, out: &mut dyn Write) {
     let kinds = [
         (PieceKind::Pawn, "P"),
@@ -543,6 +561,7 @@ fn main() {
             "eval" => do_eval(&fields, &mut out),
             "chk" => do_chk(&fields, &mut out),
             "pos" => do_pos(&fields, &z, &mut out),
+            "roots" => do_roots(&fields, &z, &mut out),
             "search" => do_search(&fields, &z, &mut out),
             "slice" => do_slice(&fields, &mut out),
             "clean" => do_clean(&fields, &mut out),
